@@ -1,5 +1,158 @@
 import AiocoapModel.Basic.Bytes
-/-! Line protocol for C07 (not built yet). -/
+import AiocoapModel.Observe.Client
+import AiocoapModel.Observe.Joint
+import AiocoapModel.Driver.MsgLayer
+/-!
+Line protocol for C07.
+
+`C07 F <reset> <v1> <t1> <v2> <t2>`                      → `1`/`0` (`fresher`)
+`C07 R <reset> <observe 0|1> <event>*`                    the runner of `Request._run`
+   events: `M@t:code:obs|-:body:last`  message      `X@t:k`  exception
+           `OC@t`  observation.cancel()             `RC@t`  response.cancel()
+   → one group per event, separated by blanks: `<deliveries,comma|.>/<E|->` where `E` says the
+     runner has ended (the pipe has no interest left).  Deliveries:
+     `resp:code:obs:body` `rexc:k` `cb:code:obs:body` `eb:<NotObservable|ObservationCancelled|Tk>` `stop`
+`C07 J <reset> <observe 0|1> <message-layer line>`          message layer + runner of request 0
+   the message-layer line is that of `Driver/MsgLayer.lean`; additional events `OC@t`
+   (`requests[0].observation.cancel()`); `C@t:0` is `requests[0].response.cancel()`.
+   → the groups of the message-layer protocol; the deliveries of request 0 are added to their
+     group as `D<nn>:<delivery>` (`nn` = position among the deliveries of the group)
+-/
 namespace Aiocoap
-def handleC07 (_args : List String) : String := "out-of-model"
+open Aiocoap.Observe
+
+namespace Observe
+
+def optStr : Option Nat → String
+  | none => "-" | some n => toString n
+
+def msgStr (m : Msg) : String := s!"{m.code}:{optStr m.obs}:{m.body}"
+
+def errStr : ErrKind → String
+  | .notObservable => "NotObservable"
+  | .observationCancelled => "ObservationCancelled"
+  | .transport k => s!"T{k}"
+
+def deliveryStr : Delivery → String
+  | .response m => "resp:" ++ msgStr m
+  | .responseExc k => s!"rexc:{k}"
+  | .callback m => "cb:" ++ msgStr m
+  | .errback k => "eb:" ++ errStr k
+  | .stopInterest => "stop"
+
+def parseBool (s : String) : Option Bool :=
+  if s = "1" then some true else if s = "0" then some false else none
+
+def parseOptNat (s : String) : Option (Option Nat) :=
+  if s = "-" then some none else s.toNat?.map some
+
+def parseEvent (s : String) : Option TEvent :=
+  match s.splitOn "@" with
+  | [kind, rest] =>
+    match kind, rest.splitOn ":" with
+    | "M", [t, code, obs, body, last] => do
+      let m : Msg := { code := ← code.toNat?, obs := ← parseOptNat obs, body := ← body.toNat? }
+      pure { time := ← t.toNat?, ev := .message m (← parseBool last) }
+    | "X", [t, k] => do pure { time := ← t.toNat?, ev := .exception (← k.toNat?) }
+    | "OC", [t] => do pure { time := ← t.toNat?, ev := .obsCancel }
+    | "RC", [t] => do pure { time := ← t.toNat?, ev := .respCancel }
+    | _, _ => none
+  | _ => none
+
+def groupStr (ds : List Delivery) (s : ObsState) : String :=
+  (if ds.isEmpty then "." else ",".intercalate (ds.map deliveryStr)) ++ "/" ++
+  (if s = .ended then "E" else "-")
+
+/-- groups of a history, `none` as soon as the model is left -/
+def runGroups (cfg : Cfg) (s : ObsState) : List TEvent → Option (List String)
+  | [] => some []
+  | e :: es =>
+    let r := step cfg s e
+    if r.1 = .unmodelled then none else
+    (runGroups cfg r.1 es).map (groupStr r.2 r.1 :: ·)
+
+-- joint ---------------------------------------------------------------------------------------
+
+inductive ScriptEv
+  | ev (e : JEv)
+  | advance
+
+def parseJoint (s : String) : Option (Nat × ScriptEv) :=
+  match s.splitOn "@" with
+  | ["OC", t] => do pure (← t.toNat?, .ev (.app (← t.toNat?) .obsCancel))
+  | ["C", rest] =>
+    match rest.splitOn ":" with
+    | [t, "0"] => do pure (← t.toNat?, .ev (.app (← t.toNat?) .respCancel))
+    | _ => none                 -- cancelling other requests is not part of these scripts
+  | _ =>
+    match MsgLayer.parseEvent s with
+    | some (t, some e) => some (t, .ev (.net { time := t, ev := e }))
+    | some (t, none) => some (t, .advance)
+    | none => none
+
+/-- fire the timers due before `bound`, earliest first, through the joint step -/
+def jointAdvance (cfg : Cfg) (fuel : Nat) (j : JState) (bound : Nat) :
+    JState × List MsgLayer.Out × List Delivery :=
+  match fuel with
+  | 0 => (j, [], [])
+  | fuel + 1 =>
+    match MsgLayer.earliestBefore j.ms bound with
+    | none => (j, [], [])
+    | some (t, tm) =>
+      let a := jointStep cfg 0 j (.net { time := t, ev := tm.toEv })
+      let b := jointAdvance cfg fuel a.1 bound
+      (b.1, a.2.1 ++ b.2.1, a.2.2 ++ b.2.2)
+
+def pad2 (n : Nat) : String := (if n < 10 then "0" else "") ++ toString n
+
+def jointGroupStr (os : List MsgLayer.Out) (ds : List Delivery) : String :=
+  let dl := ds.zipIdx.map (fun (d, i) => "D" ++ pad2 i ++ ":" ++ deliveryStr d)
+  ";".intercalate (os.map MsgLayer.outStr ++ dl)
+
+/-- as `MsgLayer.runScript`; `unm` reports that the runner left the model -/
+def jointScript (cfg : Cfg) (j : JState) (curO : List MsgLayer.Out) (curD : List Delivery) :
+    List (Nat × ScriptEv) → List String × Bool × Bool × JState
+  | [] => ([jointGroupStr curO curD], false, j.st = .unmodelled, j)
+  | (t, ev) :: rest =>
+    let (j1, o1, d1) := jointAdvance cfg 100000 j t
+    let tie := MsgLayer.tiesAt j1.ms t > 0
+    let (j2, o2, d2) := match ev with
+      | .ev e => jointStep cfg 0 j1 e
+      | .advance => ({ j1 with ms := { j1.ms with now := t } }, [], [])
+    let (gs, tie', unm, j3) := jointScript cfg j2 o2 d2 rest
+    (jointGroupStr (curO ++ o1) (curD ++ d1) :: gs, tie || tie', unm || j2.st = .unmodelled, j3)
+
+def handleJoint (reset observe : String) (args : List String) : String :=
+  match reset.toNat?, parseBool observe, args with
+  | some reset, some observe, el :: ead :: mid :: tok :: draws :: evs =>
+    match el.toNat?, ead.toNat?, mid.toNat?, tok.toNat?, MsgLayer.parseDraws draws, evs.mapM parseJoint with
+    | some el, some ead, some mid, some tok, some draws, some evs =>
+      let ms0 := MsgLayer.init { exchangeLifetime := el, emptyAckDelay := ead } mid tok
+        (fun i => draws.getD i 0)
+      let (gs, tie, unm, jf) := jointScript { reset, observe } { ms := ms0, st := .awaitingFirst } [] [] evs
+      if unm then "out-of-model" else
+      (if jf.ms.drawIdx > draws.length then "STARVED " else "") ++ (if tie then "TIE " else "") ++
+        "|".intercalate gs
+    | _, _, _, _, _, _ => "bad-op"
+  | _, _, _ => "bad-op"
+
+end Observe
+
+def handleC07 (args : List String) : String :=
+  match args with
+  | ["F", reset, v1, t1, v2, t2] =>
+    match reset.toNat?, v1.toNat?, t1.toNat?, v2.toNat?, t2.toNat? with
+    | some reset, some v1, some t1, some v2, some t2 =>
+      if fresher reset v1 t1 v2 t2 then "1" else "0"
+    | _, _, _, _, _ => "bad-op"
+  | "R" :: reset :: observe :: evs =>
+    match reset.toNat?, parseBool observe, evs.mapM parseEvent with
+    | some reset, some observe, some evs =>
+      match runGroups { reset, observe } .awaitingFirst evs with
+      | some gs => if gs.isEmpty then "-" else " ".intercalate gs
+      | none => "out-of-model"
+    | _, _, _ => "bad-op"
+  | "J" :: reset :: observe :: rest => handleJoint reset observe rest
+  | _ => "bad-op"
+
 end Aiocoap
